@@ -259,6 +259,7 @@ package bluemonday
 //@     invariant fresh(tmpAttrs)
 //@     invariant[C11] len(tmpAttrs) == rangeindex + 1 && rangeindex < len(cleanAttrs)
 //@     invariant[C11] forall i int :: 0 <= i && i <= rangeindex ==> tmpAttrs[i].Key == cleanAttrs[i].Key && (cleanAttrs[i].Key != "rel" && cleanAttrs[i].Key != "target" ==> tmpAttrs[i].Val == cleanAttrs[i].Val)
+//@     invariant[C11] forall i int :: 0 <= i && i <= rangeindex && cleanAttrs[i].Key == "rel" && (addNoFollow ==> hasTok(cleanAttrs[i].Val, "nofollow")) && (addNoReferrer ==> hasTok(cleanAttrs[i].Val, "noreferrer")) ==> tmpAttrs[i].Val == cleanAttrs[i].Val
 //@     invariant[C11] addNoFollow ==> relsHave(tmpAttrs, "nofollow")
 //@     invariant[C11] addNoReferrer ==> relsHave(tmpAttrs, "noreferrer")
 //@     invariant[C11] noFollowFound <==> (addNoFollow && (exists i int :: 0 <= i && i <= rangeindex && cleanAttrs[i].Key == "rel"))
@@ -282,6 +283,7 @@ package bluemonday
 //@     invariant fresh(tmpAttrs)
 //@     invariant[C11] len(tmpAttrs) == rangeindex + 1 && rangeindex < len(cleanAttrs)
 //@     invariant[C11] forall i int :: 0 <= i && i <= rangeindex ==> tmpAttrs[i].Key == cleanAttrs[i].Key && (cleanAttrs[i].Key != "rel" ==> tmpAttrs[i].Val == cleanAttrs[i].Val)
+//@     invariant[C11] forall i int :: 0 <= i && i <= rangeindex && cleanAttrs[i].Key == "rel" && hasTok(cleanAttrs[i].Val, "noopener") ==> tmpAttrs[i].Val == cleanAttrs[i].Val
 //@     invariant[C11] relsHave(tmpAttrs, "noopener")
 //@     invariant[C11] relsHave(cleanAttrs, "nofollow") ==> relsHave(tmpAttrs, "nofollow")
 //@     invariant[C11] relsHave(cleanAttrs, "noreferrer") ==> relsHave(tmpAttrs, "noreferrer")
